@@ -1,1 +1,975 @@
-fn main() {}
+//! hx-sim: implementation executor for C14 (RPC life-cycle under network faults).
+//!
+//! Each case is one turmoil simulation (deterministic simulated time, 1 ms tick):
+//! one server host running the real `datacake_rpc::Server` with an echo service and
+//! one client host issuing 1..8 requests over 1..2 `Channel`s ("lanes"), while a
+//! schedule of partition / hold / release / repair events is applied to the
+//! client<->server link at chosen simulated times (optionally also from inside the
+//! handler, i.e. exactly between execution and reply).
+//!
+//! case line   = configuration + schedule + `#` + the observed trace (what the model
+//!               cannot predict: which connect attempts were made and when the
+//!               handshake completed, when the handler ran, when and how each call
+//!               returned);
+//! result line = per request `ok:<reply>|conn-err|timeout|pending|panic|status:<n>`
+//!               followed by ` x<handler executions>`.
+//! The model (coq/rpclife/RpcLife.v) replays the trace through its transition system;
+//! it prints the same result line iff every observed step is one it allows.
+//!
+//! The property oracle (independent of the model) is evaluated on the outcomes:
+//! nothing executed twice, every Ok carries the reply computed for its own request,
+//! nothing swapped, a configured timeout is respected, nothing panics, nothing pends
+//! without a fault.
+
+use std::cell::{Cell, RefCell};
+use std::fmt::Write as _;
+use std::future::Future;
+use std::net::{IpAddr, Ipv4Addr, SocketAddr};
+use std::panic::{catch_unwind, AssertUnwindSafe};
+use std::pin::Pin;
+use std::rc::Rc;
+use std::sync::{Arc, Mutex};
+use std::task::{Context, Poll};
+use std::time::Duration;
+
+use datacake_rpc::{
+    Channel, ErrorCode, Handler, Request, RpcClient, RpcService, Server, ServiceRegistry, Status,
+};
+use hxcommon::{quiet_panics, Args, CaseWriter, Rng};
+use rkyv::{Archive, Deserialize, Serialize};
+use tokio::time::Instant;
+
+const PORT: u16 = 9999;
+
+/// Self-test of the check (`mutate=retry|swap|late` on the command line, never used by
+/// bin/check): the harness itself misbehaves the way a broken client/server would, and
+/// the oracle and the model must both object.
+static MUTATE: std::sync::atomic::AtomicU8 = std::sync::atomic::AtomicU8::new(0);
+fn mutate() -> u8 {
+    MUTATE.load(std::sync::atomic::Ordering::Relaxed)
+}
+/// The connect bound hard-coded in datacake-rpc (net/simulation.rs, net/client.rs).
+const CONNECT_US: u64 = 2_000_000;
+/// One simulation tick; the granularity at which simulated time is observable.
+const SLACK_US: u64 = 1_000;
+
+// ------------------------------------------------------------------ case description
+
+#[derive(Clone, Debug, PartialEq)]
+struct ReqCfg {
+    lane: u32,
+    tmo_us: u64,   // 0 = no timeout configured
+    delay_us: u64, // handler sleeps this long before replying
+    start_us: u64,
+    hf: u32, // fault applied by the handler itself on entry: 0 none, 1 hold, 2 partition
+}
+
+#[derive(Clone, Debug, PartialEq)]
+struct Case {
+    lat_ms: u64,
+    salt: u64,
+    reqs: Vec<ReqCfg>,
+    sched: Vec<(u64, char)>, // (time in us, p|h|l|r)
+}
+
+impl Case {
+    fn head(&self) -> String {
+        let mut s = format!("c {:x} {:x}", self.lat_ms, self.salt);
+        for q in &self.reqs {
+            write!(s, " q {:x} {:x} {:x} {:x} {:x}", q.lane, q.tmo_us, q.delay_us, q.start_us, q.hf)
+                .unwrap();
+        }
+        for (t, k) in &self.sched {
+            write!(s, " s {:x} {}", t, k).unwrap();
+        }
+        s
+    }
+
+    fn parse(line: &str) -> Option<Case> {
+        let head = line.split('#').next().unwrap();
+        let t: Vec<&str> = head.split_whitespace().collect();
+        let hx = |s: &str| u64::from_str_radix(s, 16).ok();
+        if t.len() < 3 || t[0] != "c" {
+            return None;
+        }
+        let mut c = Case { lat_ms: hx(t[1])?, salt: hx(t[2])?, reqs: vec![], sched: vec![] };
+        let mut i = 3;
+        while i < t.len() {
+            match t[i] {
+                "q" if i + 5 < t.len() => {
+                    c.reqs.push(ReqCfg {
+                        lane: hx(t[i + 1])? as u32,
+                        tmo_us: hx(t[i + 2])?,
+                        delay_us: hx(t[i + 3])?,
+                        start_us: hx(t[i + 4])?,
+                        hf: hx(t[i + 5])? as u32,
+                    });
+                    i += 6;
+                },
+                "s" if i + 2 < t.len() => {
+                    c.sched.push((hx(t[i + 1])?, t[i + 2].chars().next()?));
+                    i += 3;
+                },
+                _ => return None,
+            }
+        }
+        if c.reqs.is_empty() || c.reqs.len() > 16 {
+            return None;
+        }
+        Some(c)
+    }
+
+    fn payload(&self, i: usize) -> u32 {
+        (self.salt as u32).wrapping_mul(16).wrapping_add(i as u32)
+    }
+
+    fn has_fault(&self) -> bool {
+        !self.sched.is_empty() || self.reqs.iter().any(|q| q.hf != 0)
+    }
+}
+
+/// The reply the handler computes for a payload (the model's `handler`).
+fn handler_fn(payload: u32) -> u32 {
+    ((payload as u64 * 2_654_435_761 + 12_345) % (1u64 << 32)) as u32
+}
+
+// ------------------------------------------------------------------ observations
+
+#[derive(Clone, Debug, PartialEq)]
+enum Res {
+    Ok { echo: u32, value: u32 },
+    ConnErr,
+    Timeout,
+    Status(u32),
+    Panic,
+    Pending,
+}
+
+impl Res {
+    fn trace_tok(&self) -> String {
+        match self {
+            Res::Ok { value, .. } => format!("ok:{:x}", value),
+            Res::ConnErr => "ce".into(),
+            Res::Timeout => "to".into(),
+            Res::Status(c) => format!("st:{:x}", c),
+            Res::Panic => "pn".into(),
+            Res::Pending => "pd".into(),
+        }
+    }
+    fn out_tok(&self) -> String {
+        match self {
+            Res::Ok { value, .. } => format!("ok:{:x}", value),
+            Res::ConnErr => "conn-err".into(),
+            Res::Timeout => "timeout".into(),
+            Res::Status(c) => format!("status:{:x}", c),
+            Res::Panic => "panic".into(),
+            Res::Pending => "pending".into(),
+        }
+    }
+}
+
+#[derive(Clone, Debug)]
+enum Ev {
+    Env(char),
+    St(usize),
+    Sy(usize, char),
+    Cn(usize),
+    Ex(usize),
+    Dn(usize),
+    En(usize, Res),
+    Hz,
+}
+
+#[derive(Default)]
+struct Obs {
+    last: u64,
+    ev: Vec<(u64, Ev)>,
+    execs: Vec<u32>,
+    seg_drop: u64,
+    seg_hold: u64,
+}
+
+impl Obs {
+    fn push(&mut self, t: u64, e: Ev) {
+        // One OS thread runs the hosts one after the other inside a tick, so the order
+        // of appends is the causal order; stamps of different hosts may differ by less
+        // than one tick and are clamped to be monotone.
+        let t = t.max(self.last);
+        self.last = t;
+        self.ev.push((t, e));
+    }
+}
+
+type SharedObs = Arc<Mutex<Obs>>;
+
+thread_local! {
+    static OBS: RefCell<Option<SharedObs>> = RefCell::new(None);
+    /// request whose future is being polled right now (-1: none)
+    static CUR: Cell<i64> = Cell::new(-1);
+    /// `Instant` of the client runtime that corresponds to simulated time 0
+    static CBASE: Cell<Option<Instant>> = Cell::new(None);
+}
+
+fn us_since(base: Instant) -> u64 {
+    Instant::now().saturating_duration_since(base).as_micros() as u64
+}
+
+/// Collects the two facts about connection set-up that are not visible through the
+/// public API: every TCP SYN sent while a request future is being polled (and whether
+/// the link dropped / held it), and the moment the SYN-ACK is received.
+struct NetTap;
+
+#[derive(Default)]
+struct Capped {
+    buf: String,
+}
+impl std::fmt::Write for Capped {
+    fn write_str(&mut self, s: &str) -> std::fmt::Result {
+        for ch in s.chars() {
+            if self.buf.len() >= 12 {
+                return Err(std::fmt::Error);
+            }
+            self.buf.push(ch);
+        }
+        Ok(())
+    }
+}
+
+#[derive(Default)]
+struct TapVisit {
+    msg: Capped,
+    proto: Capped,
+}
+impl tracing::field::Visit for TapVisit {
+    fn record_debug(&mut self, field: &tracing::field::Field, value: &dyn std::fmt::Debug) {
+        match field.name() {
+            "message" => {
+                let _ = write!(self.msg, "{:?}", value);
+            },
+            "protocol" => {
+                let _ = write!(self.proto, "{:?}", value);
+            },
+            _ => {},
+        }
+    }
+}
+
+impl tracing::Subscriber for NetTap {
+    fn enabled(&self, m: &tracing::Metadata<'_>) -> bool {
+        m.target() == "turmoil" && *m.level() == tracing::Level::TRACE
+    }
+    fn new_span(&self, _: &tracing::span::Attributes<'_>) -> tracing::span::Id {
+        tracing::span::Id::from_u64(1)
+    }
+    fn record(&self, _: &tracing::span::Id, _: &tracing::span::Record<'_>) {}
+    fn record_follows_from(&self, _: &tracing::span::Id, _: &tracing::span::Id) {}
+    fn enter(&self, _: &tracing::span::Id) {}
+    fn exit(&self, _: &tracing::span::Id) {}
+    fn event(&self, e: &tracing::Event<'_>) {
+        if e.metadata().target() != "turmoil" {
+            return;
+        }
+        let mut v = TapVisit::default();
+        e.record(&mut v);
+        let msg = v.msg.buf.as_str();
+        let proto = v.proto.buf.as_str();
+        let cur = CUR.with(|c| c.get());
+        OBS.with(|o| {
+            let o = o.borrow();
+            let Some(obs) = o.as_ref() else { return };
+            let mut obs = obs.lock().unwrap();
+            match msg {
+                "Drop" => obs.seg_drop += 1,
+                "Hold" => obs.seg_hold += 1,
+                _ => {},
+            }
+            if cur < 0 {
+                return;
+            }
+            let i = cur as usize;
+            let Some(base) = CBASE.with(|b| b.get()) else { return };
+            let now = us_since(base);
+            match (msg, proto) {
+                ("Send", "TCP SYN") => obs.push(now, Ev::Sy(i, 'c')),
+                ("Hold", "TCP SYN") | ("Drop", "TCP SYN") => {
+                    let f = if msg == "Hold" { 'h' } else { 'd' };
+                    if let Some((_, Ev::Sy(j, fate))) = obs.ev.last_mut() {
+                        if *j == i {
+                            *fate = f;
+                        }
+                    }
+                },
+                ("Recv", "TCP SYN-ACK") => obs.push(now, Ev::Cn(i)),
+                _ => {},
+            }
+        });
+    }
+}
+
+/// Marks which request a poll belongs to and turns a panic of the polled future into
+/// a value.
+struct Tagged<T> {
+    id: usize,
+    fut: Option<Pin<Box<dyn Future<Output = T>>>>,
+}
+
+impl<T> Future for Tagged<T> {
+    type Output = Option<T>;
+    fn poll(mut self: Pin<&mut Self>, cx: &mut Context<'_>) -> Poll<Option<T>> {
+        let id = self.id;
+        let Some(fut) = self.fut.as_mut() else { return Poll::Ready(None) };
+        CUR.with(|c| c.set(id as i64));
+        let r = catch_unwind(AssertUnwindSafe(|| fut.as_mut().poll(cx)));
+        CUR.with(|c| c.set(-1));
+        match r {
+            Ok(Poll::Pending) => Poll::Pending,
+            Ok(Poll::Ready(v)) => {
+                self.fut = None;
+                Poll::Ready(Some(v))
+            },
+            Err(_) => {
+                // the future is poisoned; leak it rather than run its destructor twice
+                std::mem::forget(self.fut.take());
+                Poll::Ready(None)
+            },
+        }
+    }
+}
+
+// ------------------------------------------------------------------ the service
+
+#[repr(C)]
+#[derive(Serialize, Deserialize, Archive, PartialEq, Debug)]
+#[archive(compare(PartialEq), check_bytes)]
+pub struct Ping {
+    payload: u32,
+    idx: u32,
+    delay_us: u64,
+    hf: u32,
+}
+
+#[repr(C)]
+#[derive(Serialize, Deserialize, Archive, PartialEq, Debug)]
+#[archive(compare(PartialEq), check_bytes)]
+pub struct Pong {
+    echo: u32,
+    value: u32,
+}
+
+struct EchoService {
+    obs: SharedObs,
+    base: Instant,
+}
+
+impl RpcService for EchoService {
+    fn register_handlers(registry: &mut ServiceRegistry<Self>) {
+        registry.add_handler::<Ping>();
+    }
+}
+
+#[datacake_rpc::async_trait]
+impl Handler<Ping> for EchoService {
+    type Reply = Pong;
+
+    async fn on_message(&self, msg: Request<Ping>) -> Result<Self::Reply, Status> {
+        let payload = msg.payload;
+        let idx = msg.idx as usize;
+        let delay = msg.delay_us;
+        let hf = msg.hf;
+        {
+            let mut o = self.obs.lock().unwrap();
+            if idx < o.execs.len() {
+                o.execs[idx] += 1;
+            }
+            let now = us_since(self.base);
+            o.push(now, Ev::Ex(idx));
+            match hf {
+                1 => {
+                    turmoil::hold("client", "server");
+                    o.push(now, Ev::Env('h'));
+                },
+                2 => {
+                    turmoil::partition("client", "server");
+                    o.push(now, Ev::Env('p'));
+                },
+                _ => {},
+            }
+        }
+        if delay > 0 {
+            tokio::time::sleep(Duration::from_micros(delay)).await;
+        }
+        let value = handler_fn(payload);
+        self.obs.lock().unwrap().push(us_since(self.base), Ev::Dn(idx));
+        if mutate() == 2 && idx % 2 == 1 {
+            // mutation: answer with the previous request's reply
+            return Ok(Pong { echo: payload - 1, value: handler_fn(payload - 1) });
+        }
+        Ok(Pong { echo: payload, value })
+    }
+}
+
+// ------------------------------------------------------------------ one simulation
+
+struct SeededRng(Rng);
+impl rand::RngCore for SeededRng {
+    fn next_u32(&mut self) -> u32 {
+        self.0.next() as u32
+    }
+    fn next_u64(&mut self) -> u64 {
+        self.0.next()
+    }
+    fn fill_bytes(&mut self, dest: &mut [u8]) {
+        for b in dest {
+            *b = self.0.next() as u8;
+        }
+    }
+    fn try_fill_bytes(&mut self, dest: &mut [u8]) -> Result<(), rand::Error> {
+        self.fill_bytes(dest);
+        Ok(())
+    }
+}
+
+struct RunOut {
+    trace: Vec<(u64, Ev)>,
+    results: Vec<Res>,
+    ends: Vec<Option<u64>>, // elapsed us from start to result
+    execs: Vec<u32>,
+    sim_error: Option<String>,
+    seg_drop: u64,
+    seg_hold: u64,
+}
+
+fn horizon_us(case: &Case) -> u64 {
+    let max_start = case.reqs.iter().map(|q| q.start_us).max().unwrap_or(0);
+    let delays: u64 = case.reqs.iter().map(|q| q.delay_us).sum();
+    let max_tmo = case.reqs.iter().map(|q| q.tmo_us).max().unwrap_or(0);
+    let last_ev = case.sched.iter().map(|s| s.0).max().unwrap_or(0);
+    max_start.max(last_ev) + (CONNECT_US + 100_000) * case.reqs.len() as u64 + delays + max_tmo + 500_000
+}
+
+fn run_case(case: &Case) -> RunOut {
+    let n = case.reqs.len();
+    let obs: SharedObs = Arc::new(Mutex::new(Obs { execs: vec![0; n], ..Default::default() }));
+    OBS.with(|o| *o.borrow_mut() = Some(obs.clone()));
+    CUR.with(|c| c.set(-1));
+    CBASE.with(|b| b.set(None));
+    let results: Rc<RefCell<Vec<Res>>> = Rc::new(RefCell::new(vec![Res::Pending; n]));
+    let ends: Rc<RefCell<Vec<Option<u64>>>> = Rc::new(RefCell::new(vec![None; n]));
+    let horizon = horizon_us(case);
+
+    let r = catch_unwind(AssertUnwindSafe(|| -> Result<(), String> {
+        let lat = Duration::from_millis(case.lat_ms);
+        let mut b = turmoil::Builder::new();
+        b.simulation_duration(Duration::from_micros(horizon + 10_000_000))
+            .tick_duration(Duration::from_millis(1))
+            .min_message_latency(lat)
+            .max_message_latency(lat);
+        let mut sim = b.build_with_rng(Box::new(SeededRng(Rng::new(case.salt))));
+
+        let sobs = obs.clone();
+        sim.host("server", move || {
+            let obs = sobs.clone();
+            async move {
+                let base = Instant::now() - turmoil::elapsed();
+                let server =
+                    Server::listen(SocketAddr::new(IpAddr::from(Ipv4Addr::UNSPECIFIED), PORT)).await?;
+                server.add_service(EchoService { obs, base });
+                std::future::pending::<()>().await;
+                Ok(())
+            }
+        });
+
+        let case2 = case.clone();
+        let cobs = obs.clone();
+        let cres = results.clone();
+        let cends = ends.clone();
+        sim.client("client", async move {
+            let case = case2;
+            let base = Instant::now() - turmoil::elapsed();
+            CBASE.with(|b| b.set(Some(base)));
+            let addr: SocketAddr = (turmoil::lookup("server"), PORT).into();
+            let nlanes = case.reqs.iter().map(|q| q.lane).max().unwrap() as usize + 1;
+            let lanes: Vec<Channel> = (0..nlanes).map(|_| Channel::connect(addr)).collect();
+            let done = Rc::new(Cell::new(0usize));
+            let mut handles = Vec::new();
+
+            // the fault schedule
+            {
+                let sched = case.sched.clone();
+                let obs = cobs.clone();
+                handles.push(tokio::task::spawn_local(async move {
+                    for (t, k) in sched {
+                        tokio::time::sleep_until(base + Duration::from_micros(t)).await;
+                        match k {
+                            'p' => turmoil::partition("client", "server"),
+                            'h' => turmoil::hold("client", "server"),
+                            'l' => turmoil::release("client", "server"),
+                            'r' => turmoil::repair("client", "server"),
+                            _ => continue,
+                        }
+                        obs.lock().unwrap().push(us_since(base), Ev::Env(k));
+                    }
+                }));
+            }
+
+            for (i, q) in case.reqs.iter().cloned().enumerate() {
+                let mut client = RpcClient::<EchoService>::new(lanes[q.lane as usize].clone());
+                if q.tmo_us > 0 && mutate() != 3 {
+                    client.set_timeout(Duration::from_micros(q.tmo_us));
+                }
+                let msg = Ping { payload: case.payload(i), idx: i as u32, delay_us: q.delay_us, hf: q.hf };
+                let obs = cobs.clone();
+                let res = cres.clone();
+                let ends = cends.clone();
+                let done = done.clone();
+                handles.push(tokio::task::spawn_local(async move {
+                    tokio::time::sleep_until(base + Duration::from_micros(q.start_us)).await;
+                    let t0 = us_since(base);
+                    obs.lock().unwrap().push(t0, Ev::St(i));
+                    let fut = async move {
+                        let mut r = client.send(&msg).await;
+                        if mutate() == 1 && r.is_err() {
+                            // mutation: a client that retries a failed call
+                            r = client.send(&msg).await;
+                        }
+                        match r {
+                            Ok(view) => Res::Ok { echo: view.echo, value: view.value },
+                            Err(st) => match st.code {
+                                ErrorCode::ConnectionError => Res::ConnErr,
+                                ErrorCode::Timeout => Res::Timeout,
+                                ErrorCode::ServiceUnavailable => Res::Status(0),
+                                ErrorCode::InternalError => Res::Status(1),
+                                ErrorCode::InvalidPayload => Res::Status(2),
+                            },
+                        }
+                    };
+                    let r = Tagged { id: i, fut: Some(Box::pin(fut)) }.await.unwrap_or(Res::Panic);
+                    let t1 = us_since(base);
+                    obs.lock().unwrap().push(t1, Ev::En(i, r.clone()));
+                    res.borrow_mut()[i] = r;
+                    ends.borrow_mut()[i] = Some(t1 - t0);
+                    done.set(done.get() + 1);
+                }));
+            }
+
+            // wait until every call has returned, or the horizon
+            loop {
+                tokio::time::sleep(Duration::from_millis(1)).await;
+                if done.get() == case.reqs.len() || us_since(base) >= horizon {
+                    break;
+                }
+            }
+            // let a handler that is still sleeping be observed, then stop
+            cobs.lock().unwrap().push(us_since(base), Ev::Hz);
+            for h in handles {
+                h.abort();
+            }
+            Ok(())
+        });
+
+        sim.run().map_err(|e| e.to_string())
+    }));
+    OBS.with(|o| *o.borrow_mut() = None);
+    let sim_error = match r {
+        Ok(Ok(())) => None,
+        Ok(Err(e)) => Some(format!("sim error: {e}")),
+        Err(p) => Some(format!(
+            "sim panic: {}",
+            p.downcast_ref::<String>().cloned().or_else(|| p.downcast_ref::<&str>().map(|s| s.to_string())).unwrap_or_default()
+        )),
+    };
+    let o = obs.lock().unwrap();
+    let results = results.borrow().clone();
+    let ends = ends.borrow().clone();
+    RunOut {
+        trace: o.ev.clone(),
+        results,
+        ends,
+        execs: o.execs.clone(),
+        sim_error,
+        seg_drop: o.seg_drop,
+        seg_hold: o.seg_hold,
+    }
+}
+
+fn trace_text(trace: &[(u64, Ev)]) -> String {
+    let mut s = String::new();
+    for (t, e) in trace {
+        match e {
+            Ev::Env(k) => write!(s, " {:x} {}", t, k),
+            Ev::St(i) => write!(s, " {:x} st {:x}", t, i),
+            Ev::Sy(i, f) => write!(s, " {:x} sy {:x} {}", t, i, f),
+            Ev::Cn(i) => write!(s, " {:x} cn {:x}", t, i),
+            Ev::Ex(i) => write!(s, " {:x} ex {:x}", t, i),
+            Ev::Dn(i) => write!(s, " {:x} dn {:x}", t, i),
+            Ev::En(i, r) => write!(s, " {:x} en {:x} {}", t, i, r.trace_tok()),
+            Ev::Hz => write!(s, " {:x} hz", t),
+        }
+        .unwrap();
+    }
+    s
+}
+
+fn outcome_text(out: &RunOut) -> String {
+    if let Some(e) = &out.sim_error {
+        return format!("sim-failed {}", e.replace(['\n', '\t'], " "));
+    }
+    let mut v = Vec::new();
+    for (i, r) in out.results.iter().enumerate() {
+        v.push(format!("{} x{:x}", r.out_tok(), out.execs[i]));
+    }
+    v.join(" ")
+}
+
+// ------------------------------------------------------------------ property oracle
+
+/// The statement of C14 evaluated on what the implementation did (no model involved).
+fn oracle(case: &Case, out: &RunOut, w: &mut CaseWriter, line: &str) {
+    if let Some(e) = &out.sim_error {
+        w.fail("simulation-aborted", line, e);
+        return;
+    }
+    for (i, q) in case.reqs.iter().enumerate() {
+        let own = case.payload(i);
+        if out.execs[i] > 1 {
+            w.fail("executed-more-than-once", line, &format!("request {i} ran {} times", out.execs[i]));
+        }
+        match &out.results[i] {
+            Res::Ok { echo, value } => {
+                if *echo != own || *value != handler_fn(own) {
+                    let swapped = (0..case.reqs.len()).any(|j| j != i && *echo == case.payload(j));
+                    w.fail(
+                        if swapped { "reply-swapped" } else { "reply-not-the-handlers" },
+                        line,
+                        &format!("request {i} payload {own:x} got echo {echo:x} value {value:x}"),
+                    );
+                }
+                if out.execs[i] != 1 {
+                    w.fail("ok-without-execution", line, &format!("request {i} execs {}", out.execs[i]));
+                }
+            },
+            Res::ConnErr | Res::Timeout => {},
+            Res::Status(c) => {
+                w.fail("unexpected-status", line, &format!("request {i} returned status code {c}"))
+            },
+            Res::Panic => w.fail("request-panicked", line, &format!("request {i} panicked inside send")),
+            Res::Pending => {
+                if q.tmo_us > 0 {
+                    w.fail("deadline-missed", line, &format!("request {i} still pending at the horizon"));
+                } else if !case.has_fault() {
+                    w.fail("pending-without-fault", line, &format!("request {i}"));
+                }
+            },
+        }
+        if q.tmo_us == 0 && out.results[i] == Res::Timeout {
+            w.fail("timeout-without-deadline", line, &format!("request {i}"));
+        }
+        if let Some(el) = out.ends[i] {
+            if q.tmo_us > 0 && el > q.tmo_us + SLACK_US {
+                w.fail(
+                    "deadline-missed",
+                    line,
+                    &format!("request {i} returned after {el} us, timeout {} us", q.tmo_us),
+                );
+            }
+        }
+    }
+}
+
+// ------------------------------------------------------------------ generators
+
+const MS: u64 = 1000;
+
+fn ev_time(ms: u64) -> u64 {
+    // tokio timers have millisecond resolution, so everything in a simulation happens
+    // at whole milliseconds; the order of simultaneous events is the order in which
+    // they were observed (appended to the trace)
+    ms * MS
+}
+
+const TMOS: [u64; 5] = [0, 300 * MS, 1000 * MS, 2000 * MS, 3000 * MS];
+
+/// Bounded-exhaustive family: one request; every single fault event and every ordered
+/// pair of fault events at the phase points of the request.
+fn gen_exhaustive(thorough: bool, out: &mut Vec<Case>) -> usize {
+    let kinds = ['p', 'h', 'l', 'r'];
+    let start = 10u64; // ms
+    let lat = 5u64;
+    // phase points (ms): before the call, during connect, around send/exec/reply, later
+    // (call at 10 ms, latency 5 ms: SYN 10, connected 15, handler 20, reply 25; slow
+    // handler returns at 520; timeout 300 ms fires at 310; connect bound at 2010)
+    let pts = [2u64, 10, 13, 16, 19, 24, 40, 309, 311, 600, 1900, 2015, 2600];
+    let tmos: &[u64] = if thorough { &TMOS } else { &[0, 300 * MS, 3000 * MS] };
+    let n0 = out.len();
+    let mut salt = 1u64;
+    for &tmo in tmos {
+        for &delay in &[0u64, 500 * MS] {
+            for hf in 0..3u32 {
+                let q = ReqCfg { lane: 0, tmo_us: tmo, delay_us: delay, start_us: start * MS, hf };
+                // no fault, single faults
+                out.push(Case { lat_ms: lat, salt, reqs: vec![q.clone()], sched: vec![] });
+                salt += 1;
+                for &k in &kinds {
+                    for &p in &pts {
+                        out.push(Case { lat_ms: lat, salt, reqs: vec![q.clone()], sched: vec![(ev_time(p), k)] });
+                        salt += 1;
+                    }
+                }
+                // ordered pairs (fault then a second event), only without handler faults
+                if hf == 0 && (thorough || delay == 0) {
+                    for &k1 in &['p', 'h'] {
+                        for &k2 in &kinds {
+                            for (a, &p1) in pts.iter().enumerate() {
+                                for &p2 in &pts[a + 1..] {
+                                    out.push(Case {
+                                        lat_ms: lat,
+                                        salt,
+                                        reqs: vec![q.clone()],
+                                        sched: vec![(ev_time(p1), k1), (ev_time(p2), k2)],
+                                    });
+                                    salt += 1;
+                                }
+                            }
+                        }
+                    }
+                }
+            }
+        }
+    }
+    out.len() - n0
+}
+
+/// Structured random family: 1..8 requests on 1..2 lanes, sequential or concurrent,
+/// 0..6 fault events placed around the phase points of randomly chosen requests.
+fn gen_random(rng: &mut Rng, idx: u64) -> Case {
+    // (at most 10 ms, so that eight requests queued on one channel still finish well
+    // inside the smallest timeout when nothing is wrong)
+    let lat = *rng.pick(&[0u64, 1, 5, 5, 10]);
+    let n = match rng.below(10) {
+        0..=2 => 1,
+        3..=5 => 2,
+        6..=7 => 3 + rng.below(2),
+        _ => 5 + rng.below(4),
+    } as usize;
+    let nlanes = 1 + rng.below(2) as u32;
+    let concurrent = rng.chance(1, 2);
+    let mut reqs = Vec::new();
+    let mut t = 5 + rng.below(20);
+    for _ in 0..n {
+        let tmo = *rng.pick(&TMOS);
+        let delay = match rng.below(6) {
+            0 => 500 * MS,
+            1 => 50 * MS,
+            2 => 2500 * MS,
+            _ => 0,
+        };
+        let hf = match rng.below(12) {
+            0 => 1,
+            1 => 2,
+            _ => 0,
+        };
+        reqs.push(ReqCfg { lane: rng.below(nlanes as u64) as u32, tmo_us: tmo, delay_us: delay, start_us: t * MS, hf });
+        if concurrent {
+            t += *rng.pick(&[0u64, 0, 0, 1, 3, 30]);
+        } else {
+            t += *rng.pick(&[100u64, 700, 2200, 3500]);
+        }
+    }
+    let nev = match rng.below(8) {
+        0 => 0,
+        1..=2 => 1,
+        3..=4 => 2,
+        5 => 3,
+        _ => 4 + rng.below(3),
+    };
+    let mut sched = Vec::new();
+    for _ in 0..nev {
+        let q = &reqs[rng.below(n as u64) as usize];
+        let s = q.start_us / MS;
+        let base = match rng.below(9) {
+            0 => s.saturating_sub(1 + rng.below(5)),
+            1 => s,
+            2 => s + lat,
+            3 => s + 2 * lat + rng.below(3),
+            4 => s + 3 * lat + rng.below(4),
+            5 => s + 2 * lat + q.delay_us / MS + rng.below(3),
+            6 => s + if q.tmo_us > 0 { q.tmo_us / MS } else { 2000 } - rng.below(3),
+            7 => s + 2000 + rng.below(3) - 1,
+            _ => s + rng.below(3000),
+        };
+        let k = *rng.pick(&['p', 'h', 'h', 'l', 'l', 'r']);
+        sched.push((ev_time(base), k));
+    }
+    sched.sort();
+    sched.dedup_by_key(|e| e.0);
+    Case { lat_ms: lat, salt: 0x1000 + idx, reqs, sched }
+}
+
+/// Scenarios of simulation-tests/tests/rpc.rs plus concurrent first use of one channel.
+fn gen_fixed(out: &mut Vec<Case>) {
+    let q = |lane, tmo_ms: u64, delay_ms: u64, start_ms: u64, hf| ReqCfg {
+        lane,
+        tmo_us: tmo_ms * MS,
+        delay_us: delay_ms * MS,
+        start_us: start_ms * MS,
+        hf,
+    };
+    let mut salt = 0x800u64;
+    let mut add = |reqs: Vec<ReqCfg>, sched: Vec<(u64, char)>| {
+        out.push(Case { lat_ms: 5, salt, reqs, sched });
+        salt += 1;
+    };
+    add(vec![q(0, 0, 0, 5, 0)], vec![(ev_time(1), 'p')]); // network_partition_connect
+    add(vec![q(0, 0, 0, 5, 0)], vec![(ev_time(1), 'h')]); // network_timeout_connect
+    add(vec![q(0, 2000, 0, 5, 0), q(0, 2000, 0, 200, 0)], vec![(ev_time(150), 'h')]); // .._after_init
+    add(
+        vec![q(0, 2000, 0, 5, 0), q(0, 2000, 0, 200, 0)],
+        vec![(ev_time(150), 'h'), (ev_time(400), 'l')],
+    ); // .._with_recovery
+    add(vec![q(0, 2000, 0, 5, 1)], vec![]); // .._during_server_response
+    add(vec![q(0, 2000, 0, 5, 2)], vec![]); // partition during response (commented-out test)
+    // concurrent first use of a fresh channel
+    add(vec![q(0, 0, 0, 5, 0), q(0, 0, 0, 5, 0)], vec![]);
+    add(vec![q(0, 0, 0, 5, 0), q(0, 0, 0, 6, 0), q(0, 0, 0, 7, 0)], vec![]);
+    add(vec![q(0, 0, 0, 5, 0), q(0, 300, 0, 5, 0)], vec![(ev_time(1), 'h')]);
+    add(vec![q(0, 0, 0, 5, 0), q(0, 0, 0, 5, 0), q(1, 0, 0, 5, 0)], vec![(ev_time(1), 'p'), (ev_time(100), 'r')]);
+    add((0..8).map(|i| q(i % 2, 0, 0, 5, 0)).collect(), vec![]);
+    add((0..8).map(|i| q(0, 1000, 50, 5 + i as u64 * 20, 0)).collect(), vec![]);
+}
+
+// ------------------------------------------------------------------ main
+
+fn main() {
+    quiet_panics();
+    let args = Args::parse();
+    let _ = tracing::subscriber::set_global_default(NetTap);
+    match args.extra.get("mutate").map(|s| s.as_str()) {
+        Some("retry") => MUTATE.store(1, std::sync::atomic::Ordering::Relaxed),
+        Some("swap") => MUTATE.store(2, std::sync::atomic::Ordering::Relaxed),
+        Some("late") => MUTATE.store(3, std::sync::atomic::Ordering::Relaxed),
+        _ => {},
+    }
+    let mut w = CaseWriter::new(&args.dir, "rpclife");
+    let mut cases: Vec<Case> = Vec::new();
+    let mut n_exh = 0usize;
+
+    if let Some(path) = &args.replay {
+        let text = std::fs::read_to_string(path).unwrap();
+        for line in text.lines() {
+            if let Some(c) = Case::parse(line) {
+                cases.push(c);
+            }
+        }
+    } else {
+        let mut rng = Rng::new(args.seed);
+        gen_fixed(&mut cases);
+        n_exh = gen_exhaustive(args.thorough(), &mut cases);
+        let n_rand = args.get_u64("random", if args.thorough() { 60000 } else { 3000 });
+        for k in 0..n_rand {
+            cases.push(gen_random(&mut rng, k));
+        }
+    }
+
+    // run the simulations on a pool of OS threads (each simulation is single-threaded
+    // and uses thread-local state only), keep the results in case order
+    let nthreads = args.get_u64("threads", std::thread::available_parallelism().map(|n| n.get() as u64).unwrap_or(4).min(16)) as usize;
+    let next = Arc::new(std::sync::atomic::AtomicUsize::new(0));
+    let cases = Arc::new(cases);
+    let slots: Arc<Mutex<Vec<Option<RunOut>>>> = Arc::new(Mutex::new((0..cases.len()).map(|_| None).collect()));
+    let mut ths = Vec::new();
+    for _ in 0..nthreads.max(1) {
+        let next = next.clone();
+        let cases = cases.clone();
+        let slots = slots.clone();
+        ths.push(std::thread::spawn(move || loop {
+            let i = next.fetch_add(1, std::sync::atomic::Ordering::SeqCst);
+            if i >= cases.len() {
+                break;
+            }
+            let out = run_case(&cases[i]);
+            slots.lock().unwrap()[i] = Some(out);
+        }));
+    }
+    for t in ths {
+        let _ = t.join();
+    }
+    let dump = args.extra.contains_key("dump");
+    let mut slots = slots.lock().unwrap();
+    for (i, c) in cases.iter().enumerate() {
+        let out = slots[i].take().unwrap_or(RunOut {
+            trace: vec![],
+            results: vec![],
+            ends: vec![],
+            execs: vec![],
+            sim_error: Some("worker thread died".into()),
+            seg_drop: 0,
+            seg_hold: 0,
+        });
+        let line = format!("{} #{}", c.head(), trace_text(&out.trace));
+        let res = outcome_text(&out);
+        if dump {
+            println!("{line}\n    => {res}");
+        }
+        w.case(&line, &res);
+        oracle(c, &out, &mut w, &line);
+        // input distribution / branch coverage
+        w.stats.hit(&format!("requests_{}", c.reqs.len()));
+        w.stats.hit(&format!("fault_events_{}", c.sched.len().min(4)));
+        if c.reqs.iter().any(|q| q.lane > 0) {
+            w.stats.hit("two_lanes");
+        }
+        if c.reqs.windows(2).any(|p| p[1].start_us < p[0].start_us + 5 * MS) {
+            w.stats.hit("concurrent_requests");
+        }
+        for (j, r) in out.results.iter().enumerate() {
+            let q = &c.reqs[j];
+            let k = match r {
+                Res::Ok { .. } => "res_ok",
+                Res::ConnErr => "res_conn_err",
+                Res::Timeout => "res_timeout",
+                Res::Pending => "res_pending",
+                Res::Panic => "res_panic",
+                Res::Status(_) => "res_status",
+            };
+            w.stats.hit(k);
+            if q.tmo_us > 0 {
+                w.stats.hit("req_with_timeout");
+            }
+            if q.delay_us > 0 {
+                w.stats.hit("req_slow_handler");
+            }
+            if q.hf > 0 {
+                w.stats.hit("req_handler_fault");
+            }
+            if matches!(r, Res::Timeout | Res::Pending) && out.execs[j] == 1 {
+                w.stats.hit("executed_but_no_reply_seen");
+            }
+        }
+        // two situations in which a call fails although the property's faults did not
+        // touch it directly (both allowed by C14, both admitted by the model):
+        for (j, r) in out.results.iter().enumerate() {
+            if *r == Res::ConnErr {
+                let syn = out.trace.iter().find_map(|(_, e)| match e {
+                    Ev::Sy(k, f) if *k == j => Some(*f),
+                    _ => None,
+                });
+                match syn {
+                    None => w.stats.hit("conn_err_on_established_connection"),
+                    Some('c') => w.stats.hit("conn_err_after_clean_syn"),
+                    _ => {},
+                }
+            }
+        }
+        for (_, e) in &out.trace {
+            match e {
+                Ev::Sy(_, 'c') => w.stats.hit("syn_clean"),
+                Ev::Sy(_, 'h') => w.stats.hit("syn_held"),
+                Ev::Sy(_, 'd') => w.stats.hit("syn_dropped"),
+                _ => {},
+            }
+        }
+        w.stats.add("segments_dropped", out.seg_drop);
+        w.stats.add("segments_held", out.seg_hold);
+    }
+    w.finish(&[("exhaustive_single_request_cases", n_exh.to_string())]);
+}
